@@ -215,6 +215,8 @@ _R11 = {
  "C18": ("; WD-5", ""),
  "C19": ("; consumers of Encode4mer skip ambiguous windows (A4), HaviestPath on weightless graphs (HW)", " Also decides that no window holding an ambiguity code is indexed, and that an acyclic graph always has a path."),
 }
+_R11["C05"] = (_R11["C05"][0] + ", goroutines do not assign what their creator reads (IT-6b)", _R11["C05"][1])
+_R11["C16"] = (_R11["C16"][0] + ", discarded file written without criterion (SD)", _R11["C16"][1])
 for _k, (_t, _l) in _R11.items():
     _a, _b, _c = CLAIMED[_k]
     CLAIMED[_k] = (_a + _t, _b + _l, _c)
